@@ -89,6 +89,13 @@ add("C14", "fault_enumeration",
     "Trusted: nlrun panic capture. Resource classes (huge counts to size-like builtins, infinite streams) excluded by construction and counted.",
     "DESIGN.md §3 C14")
 
+add("C02", "exploration",
+    "metamorphic allocation scaling: bytes requested from a counting global allocator during a mutation loop at n and 4n (enumerated forms + Hypothesis-generated interleavings)",
+    "34 mutation forms over lists, rows, dicts (with/without default), vectors, bytes, struct fields and nested paths, plain / type-annotated / "
+    "with one extra holder, and generated interleavings of 2-3 forms: A(4n) <= 7 A(n) (linear ~4, copy-per-operation ~16), alias variant at most "
+    "one copy per holder; each workload's result is probed so a failed loop cannot pass as fast.",
+    "Trusted: the counting #[global_allocator] in nlrun (deterministic byte counts). Two sizes only; strings/$=/x{..}/every..f= reported, not asserted.",
+    "DESIGN.md §3 C02")
 add("C04", "exploration",
     "exhaustive differential grid: every callable x argument tuples from a 54-value pool, all application forms of the statement evaluated and compared (equal canonical outcome or common failure)",
     "~310 builtins/types plus 21 user callables (closures, defaults, splats, compositions, left/right sections, flips) x pool^k (k=1..3): "
